@@ -60,6 +60,12 @@ func genC15(r *Rng, e *Emitter, n int) {
 			copy(d[:dim], c[:dim])
 		case 4: // segment parallel to the last axis
 			copy(b[:dim-1], a[:dim-1])
+		case 5: // nearly parallel: the second segment is the first one moved by a few units at each end
+			// (long segments on the large grids: directions differ by ~1e-6 rad, closest points interior)
+			for k := 0; k < dim; k++ {
+				c[k] = a[k] + float64(r.Intn(7)-3)
+				d[k] = b[k] + float64(r.Intn(7)-3)
+			}
 		}
 		e.tally(fmt.Sprintf("grid=%d", g))
 		switch kind {
